@@ -68,6 +68,7 @@ func (c09) Thresholds(tier string) map[string]int64 {
 		"range-draws:random_range":                           30000,
 		"range-draws:random":                                 15000,
 		"range-draws-with-bounds-that-change-between-passes": 20000,
+		"runs-compared-with-slow-host-functions":             16,
 		"range:dice(1)":                                      1000,
 		"range:a==b":                                         1000,
 		"range:negative-lower-bound":                         5000,
@@ -89,7 +90,7 @@ func (c09) Thresholds(tier string) map[string]int64 {
 }
 
 func (c09) Rule() string {
-	return "case = one generated program that uses dice, random and random_range in lines, if conditions, option conditions, set statements and computed jump targets (bounds up to 9*10^15, so spans beyond 2^31 and 2^32 occur), one program in three with a line that fails on an unknown variable (error texts are part of the digest), one seed over [0-9a-z] (lengths 1-40: single characters, all zeros, long seeds that overflow the base-36 accumulation) and one PRNG choice policy. The case is executed: twice in-process back to back; once more in-process after 1-20 unrelated runners (other seeds, the empty seed) were created and stepped; and in 3 fresh processes per chunk of cases (GOMAXPROCS 1 / 4 / 16, executing the chunk forwards, backwards and shuffled, so that 'what ran before' differs). Oracle: all executions have the same SHA-256 digest over every element (node, text, tags, attribute list, options and flags), every error text and the final GetValues(). Range sub-workload per case: 70 captured draws with bounds incl. dice(1), a == b, negative bounds and spans up to 2^31, with the case's seed or the empty seed: dice(n) is an integer in [1,n], random_range(a,b) an integer in [a,b], random() in [0,1). Also per case: one call site of each built-in whose bounds are compound expressions over variables ($n * 1, $lo + 0 ...), run six times by the same runner while the host changes the variables between passes (every draw within the bounds of its pass). Non-trivial: the trace has >=3 random draw sites and the program branches on a draw. Distinct by hash of scripts+seed+choice policy. Each execution is also repeated with other runners created (and partly driven) between its creation and its steps. One case per chunk aims at the bounds of random(): the harness walks the generator (internal/rng) over 48 million draws of PRNG seeds, keeps the 10 draws closest to 1 and the 3 closest to 0, and makes the real runner produce exactly those draws (a script calling random() k+1 times under that seed); every value returned through the runner must be in [0,1). One program in fifteen contains a jump whose destination is a number, boolean or draw (error texts are part of the digest)."
+	return "case = one generated program that uses dice, random and random_range in lines, if conditions, option conditions, set statements and computed jump targets (bounds up to 9*10^15, so spans beyond 2^31 and 2^32 occur), one program in three with a line that fails on an unknown variable (error texts are part of the digest), one seed over [0-9a-z] (lengths 1-40: single characters, all zeros, long seeds that overflow the base-36 accumulation) and one PRNG choice policy. The case is executed: twice in-process back to back; once more in-process after 1-20 unrelated runners (other seeds, the empty seed) were created and stepped; and in 3 fresh processes per chunk of cases (GOMAXPROCS 1 / 4 / 16, executing the chunk forwards, backwards and shuffled, so that 'what ran before' differs). Oracle: all executions have the same SHA-256 digest over every element (node, text, tags, attribute list, options and flags), every error text and the final GetValues(). Range sub-workload per case: 70 captured draws with bounds incl. dice(1), a == b, negative bounds and spans up to 2^31, with the case's seed or the empty seed: dice(n) is an integer in [1,n], random_range(a,b) an integer in [a,b], random() in [0,1). Also per case: one call site of each built-in whose bounds are compound expressions over variables ($n * 1, $lo + 0 ...), run six times by the same runner while the host changes the variables between passes (every draw within the bounds of its pass). One case per chunk runs a 60-round loop twice, with host functions that answer at once and with host functions that take 25 ms each (1.5 s inside one Next): same run. Non-trivial: the trace has >=3 random draw sites and the program branches on a draw. Distinct by hash of scripts+seed+choice policy. Each execution is also repeated with other runners created (and partly driven) between its creation and its steps. One case per chunk aims at the bounds of random(): the harness walks the generator (internal/rng) over 48 million draws of PRNG seeds, keeps the 10 draws closest to 1 and the 3 closest to 0, and makes the real runner produce exactly those draws (a script calling random() k+1 times under that seed); every value returned through the runner must be in [0,1). One program in fifteen contains a jump whose destination is a number, boolean or draw (error texts are part of the digest)."
 }
 
 func (c09) Assumptions() []string {
@@ -413,6 +414,43 @@ func (p c09) Run(c *core.Ctx) {
 	if c.Idx%50 == 7 && !c.Failed() {
 		p.extremes(c)
 	}
+	if c.Idx%50 == 9 && !c.Failed() {
+		p.hostLatency(c, seed)
+	}
+}
+
+// hostLatency: the same script, seed and choices give the same run whether the host's functions answer at once or
+// take their time (60 calls of 25 ms inside one Next: a second and a half without an element).
+func (c09) hostLatency(c *core.Ctx, seed string) {
+	script := "title: Start\n---\n<<set $i to 0>>\n<<set $acc to 0>>\n<<jump Loop>>\n===\ntitle: Loop\n---\n<<call slow($i)>>\n<<set $acc to $acc + dice(6)>>\n<<set $i to $i + 1>>\n<<if $i < 60>>\n<<jump Loop>>\n<<endif>>\ndone {$i} {$acc} {random_range(1, 1000)}\n-> a\n-> b\nlast {dice(100)}\n===\n"
+	run := func(delay time.Duration) string {
+		rr, err, pan := mon.Create(nil, seed, []string{script})
+		if err != nil || pan != "" {
+			return "creation failed: " + fmt.Sprint(err) + pan
+		}
+		rr.DR.AddFunction("slow", func([]*variable.Value) (*variable.Value, error) {
+			if delay > 0 {
+				time.Sleep(delay)
+			}
+			return nil, nil
+		})
+		var out []string
+		for i := 0; i < 8; i++ {
+			o := rr.Next(1)
+			out = append(out, o.String())
+			if o.Kind == mon.KEnd {
+				break
+			}
+		}
+		return strings.Join(out, " | ")
+	}
+	fast, slow := run(0), run(25*time.Millisecond)
+	if fast != slow {
+		c.Violate("the same script, seed and choices give another run when the host's functions take their time", map[string]any{
+			"readers": []string{script}, "seed": seed, "with_immediate_host_functions": fast, "with_host_functions_that_take_25ms": slow})
+		return
+	}
+	c.Feature("runs-compared-with-slow-host-functions")
 }
 
 // movingBounds: one call site of each random built-in whose bounds are compound expressions over variables, run
